@@ -17,6 +17,7 @@ import json
 import os
 import random
 import shutil
+import signal
 import subprocess
 import sys
 import time
@@ -84,6 +85,12 @@ def cmd_worker(a) -> int:
     indices = [int(x) for x in a.indices.split(",") if x != ""]
     events_for = {int(x) for x in (a.events_for or "").split(",") if x != ""}
     t_start = time.time()
+    per_run_limit = float(getattr(eng, "PER_RUN_LIMIT_S", 300))
+
+    def on_alarm(signum, frame):
+        raise core.RunTimeout()
+
+    signal.signal(signal.SIGALRM, on_alarm)
     with open(a.out, "w") as out:
         if hasattr(eng, "warmup"):
             eng.warmup()
@@ -100,7 +107,20 @@ def cmd_worker(a) -> int:
                     line["fixed_plan"] = i - FIXED_BASE
                 else:
                     plan = eng.generate(random.Random(rs), a.tier)
-                outcome = eng.execute(plan)
+                signal.setitimer(signal.ITIMER_REAL, per_run_limit, 5.0)
+                try:
+                    outcome = eng.execute(plan)
+                finally:
+                    signal.setitimer(signal.ITIMER_REAL, 0)
+            except core.RunTimeout:
+                # a run that does not come back (seen: scipy's nnls cycling on an ill-conditioned matrix inside a real
+                # least_squares call) says nothing about the property: discard it, visibly
+                sys.settrace(None)
+                sys.stdout = sys.__stdout__
+                line.update({"discarded": f"timeout: run exceeded {per_run_limit}s", "violations": [], "wall": per_run_limit})
+                out.write(json.dumps(line) + "\n")
+                out.flush()
+                continue
             except core.HarnessError:
                 line["harness_error"] = traceback.format_exc()
                 out.write(json.dumps(line) + "\n")
